@@ -27,7 +27,12 @@ func VerifTypeCache(e *Engine) (keys []string, typeStrings []string) {
 	}
 	sort.Strings(keys)
 	for _, k := range keys {
-		typeStrings = append(typeStrings, state.typeByFQN[k].String())
+		// an entry without a type is reported as such, not dereferenced
+		if t := state.typeByFQN[k]; t != nil {
+			typeStrings = append(typeStrings, t.String())
+		} else {
+			typeStrings = append(typeStrings, "<nil>")
+		}
 	}
 	state.typeByFQNMu.RUnlock()
 	return keys, typeStrings
